@@ -159,6 +159,7 @@ class Scanner(ast.NodeVisitor):
         self.src = src
         self.func = ['<module>']
         self.fnodes = []
+        self.in_class = 0
         self.locals = [{}]
         self.sites = []        # dict(file, func, kind, expr, line, cls)
         self.nondet = []
@@ -308,9 +309,11 @@ class Scanner(ast.NodeVisitor):
         return ','.join(sorted(out))
 
     def where(self):
-        """the class (for anything inside a class) or the top-level function: a statement moved into a private helper of the
-        same class keeps its identity"""
-        return self.func[1] if len(self.func) > 1 else '<module>'
+        """the class (for anything inside a class) or the module: a statement moved into a private helper of the same class, or
+        into another function of the same module, keeps its identity (what is iterated and how it is consumed identify it)"""
+        if len(self.func) > 1 and self.in_class:
+            return self.func[1]
+        return '<module>'
 
     def add(self, kind, node, cls, body=None):
         expr = self.canon_iterable(node)
@@ -374,7 +377,9 @@ class Scanner(ast.NodeVisitor):
 
     def visit_ClassDef(self, node):
         self.func.append(node.name)
+        self.in_class += 1
         self.generic_visit(node)
+        self.in_class -= 1
         self.func.pop()
 
     def visit_Lambda(self, node):
